@@ -106,6 +106,10 @@ func runC10(c *Ctx) {
 		}
 		args := fmt.Sprintf("%s %s %s %s %d %d %d %s %s 12", hx(key), hx(nonce), hx(aad), hx(in), ts, len(dst), cap(dst), sh.kind, hx(dst))
 		req := fmt.Sprintf("gcm.%sglue %s", op, args)
+		if p.name == "arm64-glue" {
+			// the arm64 path is Go glue around kernels: its own model (Model/GCMGlueArm64.lean), statement by statement
+			req = fmt.Sprintf("gcm.%sglue.a64 %s", op, args)
+		}
 		specReq := fmt.Sprintf("gcm.%sglue.spec %s", op, args)
 		if expect == "" {
 			expect = fmt.Sprintf("ok %x", append(append([]byte(nil), dst...), want...))
